@@ -1,0 +1,115 @@
+//go:build verif
+
+package rescache
+
+import (
+	"encoding/json"
+	"sort"
+)
+
+// Read-only snapshots of the cache state for the verification harness (build tag verif).
+
+// VerifResSnap is the abstract state of one ResourceSubscription.
+type VerifResSnap struct {
+	Query     string
+	State     int
+	Version   uint
+	Resetting bool
+	Subs      int
+	Links     []string
+	Value     string
+	Err       string
+}
+
+// VerifEntrySnap is the abstract state of one EventSubscription.
+type VerifEntrySnap struct {
+	Name     string
+	Count    int64
+	MQSub    bool
+	QueueLen int
+	Locked   bool
+	LockCap  int
+	LockLen  int
+	Base     *VerifResSnap
+	Queries  []VerifResSnap
+	LinkKeys map[string]string
+}
+
+func verifResSnap(rs *ResourceSubscription) VerifResSnap {
+	s := VerifResSnap{
+		Query:     rs.query,
+		State:     int(rs.state),
+		Version:   rs.version,
+		Resetting: rs.resetting,
+		Subs:      len(rs.subs),
+		Links:     append([]string(nil), rs.links...),
+	}
+	sort.Strings(s.Links)
+	switch rs.state {
+	case stateModel:
+		if rs.model != nil {
+			b, _ := json.Marshal(rs.model.Values)
+			s.Value = string(b)
+		}
+	case stateCollection:
+		if rs.collection != nil {
+			b, _ := json.Marshal(rs.collection.Values)
+			s.Value = string(b)
+		}
+	}
+	if rs.err != nil {
+		s.Err = rs.err.Error()
+	}
+	return s
+}
+
+// VerifSnapshot returns the abstract state of every cache entry, sorted by name.
+func (c *Cache) VerifSnapshot() []VerifEntrySnap {
+	c.mu.Lock()
+	defer c.mu.Unlock()
+	out := make([]VerifEntrySnap, 0, len(c.eventSubs))
+	for name, e := range c.eventSubs {
+		e.mu.Lock()
+		s := VerifEntrySnap{
+			Name:     name,
+			Count:    e.count,
+			MQSub:    e.mqSub != nil,
+			QueueLen: len(e.queue),
+			Locked:   e.locks != nil,
+			LockCap:  cap(e.locks),
+			LockLen:  len(e.locks),
+			LinkKeys: map[string]string{},
+		}
+		if e.base != nil {
+			b := verifResSnap(e.base)
+			s.Base = &b
+		}
+		for _, rs := range e.queries {
+			s.Queries = append(s.Queries, verifResSnap(rs))
+		}
+		sort.Slice(s.Queries, func(i, j int) bool { return s.Queries[i].Query < s.Queries[j].Query })
+		for q, rs := range e.links {
+			s.LinkKeys[q] = rs.query
+		}
+		e.mu.Unlock()
+		out = append(out, s)
+	}
+	sort.Slice(out, func(i, j int) bool { return out[i].Name < out[j].Name })
+	return out
+}
+
+// VerifFlushEvictions runs the eviction callback now for every entry waiting in the
+// unsubscribe queue (what the eviction timer does after the delay).
+func (c *Cache) VerifFlushEvictions() {
+	if c.unsubQueue != nil {
+		c.unsubQueue.Flush()
+	}
+}
+
+// VerifEvictPending returns the number of entries waiting in the unsubscribe queue.
+func (c *Cache) VerifEvictPending() int {
+	if c.unsubQueue == nil {
+		return 0
+	}
+	return c.unsubQueue.Len()
+}
